@@ -6,7 +6,7 @@ Supported subset (anything else raises ExtractError — never stale or guessed o
   * a prefix of reads  `let x = T::from_reader_with_ctx(reader, (deku::ctx::Endian::Big, deku::ctx::BitSize(n)))?;`
     with T in bool/u8/u16/u32 — they become the parameters (Bool / Nat) of the Lean function, after the extra Rust
     parameters (`roll: Option<f64>` ...); the layout (type, width) is emitted as `<fn>_layout`;
-  * `let [mut] x = e;`, `x += e` / `x -= e`, `if c { .. } [else { .. }]` as statement or value, `if let Some(p) = v { .. }`,
+  * `let [mut] x = e;` (`let m = format!(..);` binds an opaque message that nothing but `DekuError::K(..)` may use), `x += e` / `x -= e`, `if c { .. } [else { .. }]` as statement or value, `if let Some(p) = v { .. }`,
     `return Err(DekuError::K(..))`, `return Ok(None)`, `return Ok(Some(e))`, tail `Ok(..)` / `Err(..)` / `if`;
   * integer arithmetic on u8/u16/u32/i16/i32 with the CHECKED operations of Model/Basic.lean (`addU w`, `subU`, `mulU w`,
     `divU`, `modU`, `addS w`, `subS w`, `mulS w`; `.abs()` panics on MIN) — overflow-checks are on in this crate's
@@ -27,6 +27,8 @@ D = "crates/rs1090/src/decode/bds/"
 FILES = {
     "bds50.rs": ("Bds50", ["read_roll", "read_track", "read_groundspeed", "read_rate", "read_tas"]),
     "bds60.rs": ("Bds60", ["read_heading", "read_ias", "read_mach", "read_vertical"]),
+    "bds40.rs": ("Bds40", ["read_selected", "read_qnh"]),
+    "bds44.rs": ("Bds44", ["read_pressure", "read_humidity"]),
 }
 
 INT_TYPES = {"u8": ("U", 8), "u16": ("U", 16), "u32": ("U", 32), "u64": ("U", 64), "usize": ("U", 64),
@@ -583,6 +585,10 @@ class Fn:
         kind = it[0]
         if kind == "let":
             _, name, _mut, ty, e = it
+            if self.unparen(e)[0] in ("macro", "str"):
+                # `let msg = format!(..);`: a message, of no use except inside `DekuError::K(..)` (skipped)
+                env2, _ = self.bind(env, name, "opaque")
+                return self.seq(rest, env2, k, rty)
             pre = []
             a, t = self.expr(e, env, pre, ty)
             if ty is not None and t != ty:
